@@ -204,7 +204,9 @@ def run(ctx):
                 dec_bad = dec_bad or "partial close chosen with over=%s ratio<1=%s" % (over, ratio_lt)
             # amount formula: size.value * ratio / decimals flows into the output-amount query
             want_ok = False
-            for e2 in q.events:
+            # the partial branch may live in a helper: open the engine helpers called on this path (two levels)
+            deep = splice(ix, [q], lambda e_: e_.target.crate == ENG and any("DepsMut" in e_.target.locals[i + 1]["ty"] for i in range(e_.target.arg_count)), rounds=4)
+            for e2 in [x for dq in deep for x in dq.events]:
                 if e2.name == "cosmwasm_std::Uint128::checked_div" and len(e2.args) == 2:
                     num = e2.args[0]
                     if guards.is_field_of_item(ix, e2.args[1], ENG, "margined_engine:config", "decimals") and tag(num) == "unwrap":
